@@ -164,6 +164,7 @@ func replayAudio(c *rp.Ctx, i int, cs *tagCase) rp.Result {
 		if len(tag) == 0 {
 			return rp.Fail(i, "Encode(%v) returned an empty body", f)
 		}
+		c.Hold(i, "tag body returned by Encode", tag)
 		if int(tag[0]) != cs.First {
 			dev := ""
 			if f.Fmt == 13 && tag[0] == unmaskedOpusFirst(f) {
@@ -278,6 +279,7 @@ func replayVideo(c *rp.Ctx, i int, cs *tagCase) rp.Result {
 		if len(tag) == 0 {
 			return rp.Fail(i, "Encode(%v) returned an empty body", f)
 		}
+		c.Hold(i, "tag body returned by Encode", tag)
 		if int(tag[0]) != cs.First {
 			return rp.Fail(i, "Encode(%v): first byte %#02x (frame type %d, codec %d), want %#02x", f, tag[0], tag[0]>>4, tag[0]&15, cs.First)
 		}
